@@ -465,6 +465,66 @@ func (r *Runner) c09decCheck(op *OpSpec, st *Step, sd *model.StructDef, m *messa
 	}
 }
 
+// execWrap decodes one complete message and then, op.Omit times in a row, a message of the same type that lacks every
+// field of one 64-id word in which the type declares a required field. Each of the repeated decodes must be rejected:
+// the verdict on a message does not depend on how many messages went before it. (Per-use counters, stamps and
+// generations kept in pooled objects go through a full period this way; the single complete message in front is what
+// a stale period would resurrect.)
+func (r *Runner) execWrap(op *OpSpec, st *Step) *Rec {
+	sd := r.C.Get(op.Type)
+	rt := corpus.Types[op.Type]
+	res := &Rec{Cls: "ok", Tag: "wrap/" + strconv.Itoa(op.Omit) + "/" + sd.Shape()}
+	r.st(st).evals++
+	res.Evals++
+	var reqs []*model.Field
+	for _, f := range sd.Fields {
+		if f.Req == model.Required {
+			reqs = append(reqs, f)
+		}
+	}
+	res.D = "wrap"
+	if len(reqs) == 0 {
+		return res
+	}
+	f := reqs[int(op.VSeed%uint64(len(reqs)))]
+	word := f.ID / 64
+	w := model.GenValue(r.C, sd, op.VSeed, model.VOpt{Budget: 80, MaxDepth: 2, Present: 0.3})
+	bad := model.NewW(model.WStruct)
+	for _, wf := range w.F {
+		if wf.ID/64 != word {
+			bad.F = append(bad.F, wf)
+		}
+	}
+	var missing []string
+	for _, q := range reqs {
+		if q.ID/64 == word {
+			missing = append(missing, q.Name)
+		}
+	}
+	good, lacking := w.Bytes(), bad.Bytes()
+	dst := reflect.New(rt)
+	if _, err, pc, _ := callDec(r.guardedFor(st.Task, len(good)).place(good), dst.Interface()); err != nil || pc != "" {
+		return res // the complete message is not accepted: nothing to resurrect, and not this operation's business
+	}
+	in := r.guardedFor(st.Task, len(lacking)).place(lacking)
+	zero := reflect.Zero(rt)
+	for i := 0; i < op.Omit; i++ {
+		dst.Elem().Set(zero)
+		_, err, pc, _ := callDec(in, dst.Interface())
+		if pc != "" {
+			res.Cls = "panic"
+			return res // a crash is C05's business
+		}
+		if err == nil {
+			r.violation("C09", "C09/missing-required-accepted", fmt.Sprintf("DecodeObject(%s) accepted a message lacking required %v at its %d-th repetition after one complete message: %s", op.Type, missing, i+1, bad.String()), st)
+			res.Cls = "ok"
+			return res
+		}
+	}
+	res.Cls = "err"
+	return res
+}
+
 // c09encCheck: every struct instance that exists in the value has every required field in the output.
 func (r *Runner) c09encCheck(op *OpSpec, st *Step, v *value, out []byte, res *Rec) {
 	if r.Spec.Prof != "C09" || out == nil || v.sd.Rejected() {
@@ -700,6 +760,32 @@ func (r *Runner) c16repeat(op *OpSpec, st *Step, v *value, arg interface{}, cano
 	}
 	if cb, _, ok := model.CanonBytes(a.buf()[:n]); !ok || model.Digest(cb) != canon {
 		r.violation("C16", "C16/not-repeatable", fmt.Sprintf("re-encoding the unmodified %s value gave a different message", op.Type), st)
+	}
+	if op.VSeed%3 == 0 && r.sharedFor(st) == nil {
+		// and once more after collections and a burst of small allocations: whatever the encoder compares the value
+		// with or reads besides the value (declared defaults, cached per-type data) must still be there
+		runtime.GC()
+		runtime.GC()
+		keep := make([][]byte, 0, 4000)
+		for i := 0; i < 4000; i++ {
+			b := make([]byte, 8+(i*7)%120)
+			for j := range b {
+				b[j] = 0x5a
+			}
+			keep = append(keep, b)
+		}
+		a3 := newArena(res.N+8, res.N+8)
+		n3, err3, pc3, _ := callEnc(a3.buf(), v.arg(op.ByValue))
+		runtime.KeepAlive(keep)
+		r.st(st).evals++
+		if pc3 != "" || err3 != nil || n3 != res.N {
+			r.violation("C16", "C16/not-repeatable/after-collection", fmt.Sprintf("re-encoding the unmodified %s value after garbage collections gave n=%d err=%v (first call n=%d)", op.Type, n3, err3, res.N), st)
+			return
+		}
+		if cb, _, ok := model.CanonBytes(a3.buf()[:n3]); !ok || model.Digest(cb) != canon {
+			r.violation("C16", "C16/not-repeatable/after-collection", fmt.Sprintf("re-encoding the unmodified %s value after garbage collections gave a different message", op.Type), st)
+			return
+		}
 	}
 	if op.ByValue && r.sharedFor(st) == nil {
 		r.c16churn(op, st, v)
